@@ -587,6 +587,8 @@ theorem normalizeOutbound_fields (hs : List Header) : ∀ h ∈ normalizeOutboun
 
 /-- what `validate_outbound_headers` checks (the rules normalisation cannot establish by itself) -/
 structure ConformantOut (hs : List Header) (fl : HdrFlags) : Prop where
+  /-- no field name is empty (a name of whitespace only is, once trimmed) -/
+  nonempty : ∀ h ∈ hs, h.name.bs ≠ []
   te : ∀ h ∈ hs, h.name.bs = strBytes "te" → bytesLower h.value.bs = strBytes "trailers"
   notConnectionSpecific : ∀ h ∈ hs, h.name.bs ∉ [strBytes "connection", strBytes "keep-alive", strBytes "proxy-connection",
     strBytes "transfer-encoding", strBytes "upgrade"]
@@ -598,13 +600,14 @@ structure ConformantOut (hs : List Header) (fl : HdrFlags) : Prop where
 theorem validateOutbound_iff (hs : List Header) (fl : HdrFlags) :
     (validateOutbound hs fl = .ok hs ↔ ConformantOut hs fl) ∧
     (¬ ConformantOut hs fl → validateOutbound hs fl = .error protoErr) := by
-  have key : (hs.all teOk && hs.all connOk && pseudoOk hs fl && ((fl.isResponse || fl.isTrailer) || hostAuthorityOk hs)
+  have key : (hs.all (fun h => !h.name.bs.isEmpty) && hs.all teOk && hs.all connOk && pseudoOk hs fl
+     && ((fl.isResponse || fl.isTrailer) || hostAuthorityOk hs)
      && ((fl.isResponse || fl.isTrailer) || hs.all pathOk)) = true ↔ ConformantOut hs fl := by
     simp only [Bool.and_eq_true, List.all_eq_true, teOk_iff, connOk_iff, pseudoOk_iff, pseudoAcceptable_iff, Bool.or_eq_true,
-      pathOk_iff]
+      pathOk_iff, Bool.not_eq_true', List.isEmpty_eq_false_iff]
     constructor
-    · rintro ⟨⟨⟨⟨hte, hco⟩, hsh, hro⟩, hha⟩, hpa⟩
-      refine ⟨hte, hco, hsh, hro, ?_, ?_⟩
+    · rintro ⟨⟨⟨⟨⟨hne, hte⟩, hco⟩, hsh, hro⟩, hha⟩, hpa⟩
+      refine ⟨hne, hte, hco, hsh, hro, ?_, ?_⟩
       · intro h1 h2
         rcases hha with (h | h) | h
         · rw [h1] at h; cases h
@@ -615,8 +618,8 @@ theorem validateOutbound_iff (hs : List Header) (fl : HdrFlags) :
         · rw [h1] at h; cases h
         · rw [h2] at h; cases h
         · exact h
-    · rintro ⟨hte, hco, hsh, hro, hha, hpa⟩
-      refine ⟨⟨⟨⟨hte, hco⟩, hsh, hro⟩, ?_⟩, ?_⟩
+    · rintro ⟨hne, hte, hco, hsh, hro, hha, hpa⟩
+      refine ⟨⟨⟨⟨⟨hne, hte⟩, hco⟩, hsh, hro⟩, ?_⟩, ?_⟩
       · cases h1 : fl.isResponse
         · cases h2 : fl.isTrailer
           · exact Or.inr (hha h1 h2)
